@@ -24,11 +24,24 @@ Proof.
   - exists q. split; [right; assumption|exact E].
 Qed.
 
+(* an accepted entry is never empty (after F5): lowest [] = 0 and the [] branches of
+   validate_adv / pool_has are unreachable *)
+Lemma parse_addr_nonempty a cs : parse_addr a = Some cs -> cs <> [].
+Proof.
+  intros H. destruct (parse_addr_exact a cs H) as [X _].
+  assert (W : exists x, addr_denotes a x).
+  { destruct a as [p|b l|s e]; cbn [parse_addr addr_denotes] in *.
+    - exists (mk_ip (pfam p) (pbase p)). apply contains_base.
+    - destruct (96 <=? l); eexists; apply contains_base.
+    - destruct (parse_range_same_family _ _ _ H) as [F L]. exists s. repeat split; auto; lia. }
+  destruct W as [x Hx]. apply X in Hx. destruct Hx as [p [Hp _]]. intros ->. destruct Hp.
+Qed.
+
 (* every address entry (CIDR or range) of an accepted pool has, for every attached BGP
    advertisement, at least one block whose addresses aggregate inside that block *)
 Theorem aggregate_in_some_block iter r out c : pools_for iter r = Some out -> In c (r_pools r) ->
   exists p, In p (po_pools out) /\ p_name p = pl_name c /\
-    forall a cs b, In a (pl_addrs c) -> parse_addr a = Some cs -> cs <> [] -> In b (p_bgp p) ->
+    forall a cs b, In a (pl_addrs c) -> parse_addr a = Some cs -> In b (p_bgp p) ->
       exists q, In q cs /\ plen q <= agg_of b (pfam q) /\
         forall x y, contains q x = true -> contains (mask_to (agg_of b (pfam q)) x) y = true -> contains q y = true.
 Proof.
@@ -38,7 +51,7 @@ Proof.
   exists p. split; [apply (Permutation_in _ (Permutation_sym (af_perm _ _ _ _ A))); assumption|].
   destruct (parse_pool_spec _ _ _ P) as (Hn & Hper & _).
   split; [rewrite <- (core_name _ _ C); assumption|].
-  intros a cs b Ha Pa Hne Hb.
+  intros a cs b Ha Pa Hb. pose proof (parse_addr_nonempty a cs Pa) as Hne.
   pose proof (af_ok _ _ _ _ A) as OK. rewrite Forall_forall in OK. destruct (OK _ Hp) as [_ G].
   rewrite Forall_forall in G. destruct (G _ Hb) as (H4 & H6 & Hl).
   apply parse_addrs_spec in Hper. destruct (Forall2_in_l _ _ _ _ Hper Ha) as [cs' [Hcs Pcs]].
